@@ -284,7 +284,7 @@ def replay(log, method):
                                  "model_array": list(lk["array"]), "code_array": got_v, "piece_ends": ends})
                 st["lookups"] = st.get("lookups", 0) + 2 * len(qs)
             d = float(sys_.dt)
-            if not (abs(abs(d) - abs(p["dt"]) * S) <= 1e-9 and (d > 0) == (p["dt"] > 0)) and not approx:
+            if not (abs(abs(d) - abs(p["dt"]) * S) <= 1e-9 and (d > 0) == (p["dt"] > 0)):
                 mism.append({"call": ncall, "what": "Dt", "model": p["dt"] * S, "code": d})
             i += 1
         else:
